@@ -535,18 +535,20 @@ func MergeExecResult(rs []*mysql.Result) (*mysql.Result, error) {
 func MergeSelectResult(p *SelectPlan, stmt *ast.SelectStmt, rs []*mysql.Result) (*mysql.Result, error) {
 	ret := mergeMultiResultSet(rs)
 
-	if p.distinct {
-		if err := removeDistinctRowInResult(p, ret); err != nil {
-			return nil, err
-		}
-	}
-
 	if stmt.GroupBy != nil {
 		if err := buildSelectGroupByResult(p, ret); err != nil {
 			return nil, err
 		}
 	} else {
 		if err := buildSelectOnlyResult(p, ret); err != nil {
+			return nil, err
+		}
+	}
+
+	// DISTINCT applies to the final rows: partial per-shard aggregates must be merged
+	// before duplicates are removed
+	if p.distinct {
+		if err := removeDistinctRowInResult(p, ret); err != nil {
 			return nil, err
 		}
 	}
